@@ -36,20 +36,27 @@ type Spec struct {
 	// poison) and returns the canonical outcome: first word = kind (frame|more|error|...), then
 	// everything the caller of the decoder could observe. It must not recover panics of the decoder.
 	Exec func(c Case, buf []byte) string
+	// Judge (optional) inspects an outcome and returns a finding key + detail for violations that Exec
+	// itself detected against its own reference (connection-level containment).
+	Judge func(c Case, out string) (key, detail string)
 	// NoAlloc: skip the allocation oracle for these cases (cost only).
 	NoAlloc func(c Case) bool
 	// MaxWedges: after this many calls that did not return (each costs a process) the part stops and
-	// reports exhaustive=false; 0 = default (quick 16, thorough 400).
+	// reports exhaustive=false; 0 = default (quick 8, thorough 400).
 	MaxWedges   int
 	Bound, Rule string
 }
 
 const (
-	spare        = 4096                   // poison bytes behind len(input)
-	wedgeAfter   = 60 * time.Second       // a single call not returning within this is a wedge
-	heapLimit    = 1 << 30                // heap above this while ONE call has been running for runawayAfter = runaway allocation (unrecoverable, like a wedge)
-	runawayAfter = 300 * time.Millisecond // (a call that allocates 2 GiB at once and returns is caught by the allocation oracle instead)
-	allocSlack   = 64 << 10               // allocation oracle: 64 KiB + allocPerByte*len(input)
+	spare         = 4096                   // poison bytes behind len(input)
+	wedgeAfter    = 60 * time.Second       // a single call not returning within this is a wedge
+	heapLimit     = 128 << 20              // memory in use above this and growing while ONE call has been running for runawayAfter = runaway allocation (unrecoverable, like a wedge)
+	runawayAfter  = 300 * time.Millisecond // (a call that allocates 2 GiB at once and returns is caught by the allocation oracle instead)
+	runawayGrowth = 16 << 20
+	// allocation oracle: 1 MiB + allocPerByte*len(input). (64 KiB was tried: decoder pools being refilled
+	// after a GC - a fresh hessian decoder is ~70 KiB - made borderline cases irreproducible; a length-driven
+	// allocation is orders of magnitude above 1 MiB for the large values of the boundary set.)
+	allocSlack   = 1 << 20
 	allocPerByte = 32
 )
 
@@ -113,11 +120,25 @@ type dog struct {
 	fire    func(kind string, c Case) // must not return
 }
 
-func (d *dog) enter(c Case) { d.mu.Lock(); d.running, d.since, d.cur = true, time.Now(), c; d.mu.Unlock() }
-func (d *dog) leave()       { d.mu.Lock(); d.running = false; d.mu.Unlock() }
+func (d *dog) enter(c Case) {
+	d.mu.Lock()
+	d.running, d.since, d.cur = true, time.Now(), c
+	d.mu.Unlock()
+}
+func (d *dog) leave() { d.mu.Lock(); d.running = false; d.mu.Unlock() }
 
 func (d *dog) watch() {
 	s := []metrics.Sample{{Name: "/memory/classes/heap/objects:bytes"}, {Name: "/memory/classes/heap/stacks:bytes"}}
+	used := func() uint64 {
+		metrics.Read(s)
+		if s[0].Value.Kind() != metrics.KindUint64 {
+			return 0
+		}
+		return s[0].Value.Uint64() + s[1].Value.Uint64()
+	}
+	var markAt time.Time // first observation above the limit for the current call
+	var markUsed uint64
+	var markSince time.Time
 	for {
 		time.Sleep(5 * time.Millisecond)
 		d.mu.Lock()
@@ -131,9 +152,19 @@ func (d *dog) watch() {
 			d.fire("does not return within 60s", cur)
 		}
 		if el > runawayAfter {
-			metrics.Read(s)
-			if s[0].Value.Kind() == metrics.KindUint64 && s[0].Value.Uint64()+s[1].Value.Uint64() > heapLimit {
-				d.fire("still running after 300ms with more than 1 GiB of heap+stack in use (runaway allocation)", cur)
+			// runaway = the SAME call is still running, memory in use is above the limit and has GROWN by
+			// more than runawayGrowth between two observations >= 150ms apart (one huge allocation that is
+			// merely being zeroed does not grow; it is the allocation oracle's business)
+			u := used()
+			if u > heapLimit {
+				if markSince != since {
+					markSince, markAt, markUsed = since, time.Now(), u
+				} else if time.Since(markAt) > 150*time.Millisecond {
+					if u > markUsed+runawayGrowth {
+						d.fire(fmt.Sprintf("still running after %dms with %d MiB of heap+stack in use and growing (runaway allocation)", time.Since(since).Milliseconds(), u>>20), cur)
+					}
+					markAt, markUsed = time.Now(), u
+				}
 			}
 		}
 	}
@@ -216,6 +247,16 @@ func checkCase(st *state, d *dog, sp *Spec, c Case) {
 			break
 		}
 	}
+	if sp.Judge != nil {
+		for _, o := range []obs{x, a, b} {
+			if !o.panicked {
+				if key, detail := sp.Judge(c, o.out); key != "" {
+					st.violation(key, detail, c)
+					break
+				}
+			}
+		}
+	}
 	if !a.panicked && !b.panicked && a.out != b.out {
 		st.violation(fmt.Sprintf("%s class=%s result depends on bytes beyond the received input", c.Target, c.Class),
 			fmt.Sprintf("same %d input bytes, spare capacity filled with 0xA5 vs 0x3C: outcomes differ, so the decoder read outside the received bytes.\n A: %s\n B: %s\n frame %q, %s; input=%s",
@@ -231,9 +272,9 @@ func checkCase(st *state, d *dog, sp *Spec, c Case) {
 		if delta := m1 - m0; delta > limit {
 			// confirm: the minimum over three more measurements must exceed the limit too
 			minD := delta
-			for i := 0; i < 3; i++ {
+			// (a delta beyond 64 MiB cannot be background noise: no re-measurement, which would only repeat a huge allocation)
+			for i := 0; i < 3 && delta <= 64<<20; i++ {
 				bb := poisoned(in, 0xA5)
-				runtime.GC()
 				t0 := totalAlloc()
 				guarded(d, sp, c, bb)
 				t1 := totalAlloc()
@@ -243,7 +284,7 @@ func checkCase(st *state, d *dog, sp *Spec, c Case) {
 			}
 			if minD > limit {
 				st.violation(fmt.Sprintf("%s class=%s allocation not bounded by the received bytes", c.Target, c.Class),
-					fmt.Sprintf("one call on %d received bytes allocated at least %d bytes (TotalAlloc delta, minimum of 4 measurements; limit 64KiB+%d*len = %d); outcome %s; frame %q, %s; input=%s",
+					fmt.Sprintf("one call on %d received bytes allocated at least %d bytes (TotalAlloc delta, minimum of 4 measurements; limit 1MiB+%d*len = %d); outcome %s; frame %q, %s; input=%s",
 						len(in), minD, allocPerByte, limit, clip(a.out, 200), c.Frame, c.Desc, clip(c.Hex, 600)), c)
 			}
 		}
@@ -388,7 +429,7 @@ func parent(t *testing.T, sp Spec) {
 	dir := t.TempDir() // removed by the testing package; the harness itself never removes anything
 	maxW := sp.MaxWedges
 	if maxW == 0 {
-		maxW = vreport.Pick(16, 400)
+		maxW = vreport.Pick(8, 400)
 	}
 	from := 0
 	complete := false
@@ -451,8 +492,15 @@ func parent(t *testing.T, sp Spec) {
 			}
 			p.EvalN(idx - from + 1)
 			p.Count("hard_crashes", 1)
-			p.Violation(fmt.Sprintf("%s class=%s process crash (fatal, not recoverable): %s", c.Target, c.Class, fatalKind(tw.String())),
-				fmt.Sprintf("the process died inside one decoder call (%v); frame %q, %s; input=%s; output tail: %s", werr, c.Frame, c.Desc, clip(c.Hex, 400), clip(tw.String(), 700)), c)
+			if fk := fatalKind(tw.String()); strings.Contains(fk, "out of memory") {
+				// the child runs under a 16 GiB address-space cap: running into it is the allocation oracle's
+				// verdict (same key, so that the in-process replay - which measures the allocation - confirms it)
+				p.Violation(fmt.Sprintf("%s class=%s allocation not bounded by the received bytes", c.Target, c.Class),
+					fmt.Sprintf("the child process ran out of its 16 GiB address-space cap inside one decoder call on %d received bytes; frame %q, %s; input=%s", len(c.Hex)/2, c.Frame, c.Desc, clip(c.Hex, 400)), c)
+			} else {
+				p.Violation(fmt.Sprintf("%s class=%s process crash (fatal, not recoverable): %s", c.Target, c.Class, fk),
+					fmt.Sprintf("the process died inside one decoder call (%v); frame %q, %s; input=%s; output tail: %s", werr, c.Frame, c.Desc, clip(c.Hex, 400), clip(tw.String(), 700)), c)
+			}
 			from = idx + 1
 		}
 		restarts++
